@@ -11,15 +11,3 @@ const (
 	ColourIndigo
 	ColourViolet
 )
-
-type Weekday string
-
-const (
-	WeekdayMon Weekday = "mon"
-	WeekdayTue Weekday = "tue"
-	WeekdayWed Weekday = "wed"
-	WeekdayThu Weekday = "thu"
-	WeekdayFri Weekday = "fri"
-	WeekdaySat Weekday = "sat"
-	WeekdaySun Weekday = "sun"
-)
